@@ -502,6 +502,12 @@ func (e *Engine) verdictForwarders(evs []*ssa.Function) map[*ssa.Function]bool {
 // through negation, boolean (in)equality and the phis of short-circuit expressions (resolved against the edge the path
 // came along); a condition that cannot be decided is explored both ways.
 func writeReachableUnder(ws []wEvent, from ssa.Instruction, facts map[ssa.Value]bool) *wEvent {
+	return writeReachableUnderAvoiding(ws, from, facts, nil)
+}
+
+// writeReachableUnderAvoiding: the same, but a path ends where it meets one of the `stop` instructions (a barrier: the
+// recording that must lie on every such path, say). An event in the same block counts only if it comes before the barrier.
+func writeReachableUnderAvoiding(ws []wEvent, from ssa.Instruction, facts map[ssa.Value]bool, stop map[ssa.Instruction]bool) *wEvent {
 	type state struct{ b, prev *ssa.BasicBlock }
 	var eval func(v ssa.Value, cur, prev *ssa.BasicBlock, d int) (bool, bool)
 	eval = func(v ssa.Value, cur, prev *ssa.BasicBlock, d int) (bool, bool) {
@@ -538,9 +544,19 @@ func writeReachableUnder(ws []wEvent, from ssa.Instruction, facts map[ssa.Value]
 		}
 		return false, false
 	}
+	// stopAt: index of the first barrier of b after afterIdx (len(b.Instrs) when there is none)
+	stopAt := func(b *ssa.BasicBlock, afterIdx int) int {
+		for i, in := range b.Instrs {
+			if i > afterIdx && stop[in] {
+				return i
+			}
+		}
+		return len(b.Instrs)
+	}
 	hits := func(b *ssa.BasicBlock, afterIdx int) *wEvent {
+		lim := stopAt(b, afterIdx)
 		for i := range ws {
-			if ws[i].in.Block() == b && instrIndex(ws[i].in) > afterIdx {
+			if ws[i].in.Block() == b && instrIndex(ws[i].in) > afterIdx && instrIndex(ws[i].in) < lim {
 				return &ws[i]
 			}
 		}
@@ -548,6 +564,9 @@ func writeReachableUnder(ws []wEvent, from ssa.Instruction, facts map[ssa.Value]
 	}
 	if w := hits(from.Block(), instrIndex(from)); w != nil {
 		return w
+	}
+	if stopAt(from.Block(), instrIndex(from)) < len(from.Block().Instrs) {
+		return nil
 	}
 	seen := map[state]bool{}
 	var work []state
@@ -581,6 +600,9 @@ func writeReachableUnder(ws []wEvent, from ssa.Instruction, facts map[ssa.Value]
 		work = work[:len(work)-1]
 		if w := hits(st.b, -1); w != nil {
 			return w
+		}
+		if stopAt(st.b, -1) < len(st.b.Instrs) {
+			continue
 		}
 		step(st.b, st.prev)
 	}
